@@ -58,7 +58,8 @@ Composites == <<
   V("Map", "U8,U8", 0, <<U8(1), U8(2), U8(1), U8(3)>>),                 \* duplicate key
   V("Enum", "", 1, <<Leaf("String", "x", 0), U8(1), Leaf("Bool", "", 1)>>),
   \* depth boundary shapes: a leaf under n single-child wrappers (Tuple / Enum / Array cycling)
-  V("Nest", "", 10, <<U8(1)>>), V("Nest", "", 16, <<Leaf("String", "deep", 0)>>), V("Nest", "", 17, <<Leaf("Decimal", "one", 0)>>) >>
+  V("Nest", "", 10, <<U8(1)>>), V("Nest", "", 16, <<Leaf("String", "deep", 0)>>), V("Nest", "", 17, <<Leaf("Decimal", "one", 0)>>),
+  V("Nest", "", 18, <<Leaf("Decimal", "max", 0)>>), V("Nest", "", 18, <<Leaf("Address", "account", 0)>>), V("Nest", "", 19, <<U8(1)>>) >>
 Leaves == IntLeaves \o StringLeaves \o CustomLeaves \o Composites
 NLeaves == Len(Leaves)
 
@@ -100,6 +101,22 @@ NShapes == NShapes1 + NShapes2 + NShapes3
 RECURSIVE Nodes(_)
 Nodes(x) == IF x.k = <<>> THEN 1 ELSE 1 + LET c == [i \in 1..Len(x.k) |-> Nodes(x.k[i])] IN
                                           LET RECURSIVE S(_) S(i) == IF i > Len(c) THEN 0 ELSE c[i] + S(i + 1) IN S(1)
+
+\* depth of a value (a leaf has depth 1; Nest(n, x) is x under n single-child wrappers)
+RECURSIVE Depth(_)
+Depth(x) == IF x.t = "Nest" THEN x.n + Depth(x.k[1])
+            ELSE IF x.k = <<>> THEN 1
+            ELSE 1 + LET RECURSIVE M(_) M(i) == IF i > Len(x.k) THEN 0 ELSE LET r == M(i + 1) d == Depth(x.k[i]) IN IF d > r THEN d ELSE r IN M(1)
+\* An argument value of depth d sits at SBOR depth 5 + d inside an encoded AnyManifest (enum, manifest
+\* struct, instruction list, instruction, argument tuple) and deeper inside any transaction; the
+\* manifest SBOR depth limit is 24.  Deeper manifests cannot be carried by any transaction: the
+\* law makes no claim about them beyond "no panic".
+MaxArgDepth == 19
+ArgDepth(ins) == LET RECURSIVE M(_) M(j) == IF j > Len(ins) THEN 0 ELSE
+                       LET r == M(j + 1)
+                           d == LET RECURSIVE A(_) A(a) == IF a > Len(ins[j].args) THEN 0 ELSE
+                                      LET r2 == A(a + 1) d2 == Depth(ins[j].args[a]) IN IF d2 > r2 THEN d2 ELSE r2 IN A(1)
+                       IN IF d > r THEN d ELSE r IN M(1)
 
 \* ----------------------------------------------------------------------------------------
 \* instructions (uniform records; unused fields keep their defaults)
@@ -239,13 +256,16 @@ ExpectedNames(st, style) == NameLists(st, IF style = "unknown" THEN "default" EL
 \*   p.dec, p.comp \in {"ok","err","panic"}; p.eq = (m == m2); p.eq_ins / eq_blobs / eq_children /
 \*   eq_pre / eq_names component equalities; p.eq_bytes = manifest_encode equal; p.fix = decompile(m2)
 \*   gives the same text; p.names = object names of m2 by id.
-PartOk(p, exp, style, decexp) ==
+PartOk(p, exp, style, decexp, depth) ==
   IF decexp = "err" THEN p.dec = "err"          \* arguments that are not a tuple cannot be decompiled
-  ELSE /\ p.dec = "ok" /\ p.comp = "ok"
+  ELSE IF depth > MaxArgDepth
+  THEN ~p.encodable /\ p.dec \in {"ok", "err"} /\ (p.dec = "ok" => p.comp \in {"ok", "err"})   \* too deep for SBOR: no claim
+  ELSE /\ p.encodable
+       /\ p.dec = "ok" /\ p.comp = "ok"
        /\ p.eq_ins /\ p.eq_blobs /\ p.eq_children /\ p.eq_pre /\ p.fix
        /\ p.names = exp
-       /\ (style # "unknown" => p.eq /\ p.eq_names /\ (p.encodable => p.eq_bytes))
-RoundTripOk(ev) == Len(ev.per) >= 1 /\ \A j \in 1..Len(ev.per) : PartOk(ev.per[j], ev.exp, ev.names, ev.dec_exp)
+       /\ (style # "unknown" => p.eq /\ p.eq_names /\ p.eq_bytes)
+RoundTripOk(ev) == Len(ev.per) >= 1 /\ \A j \in 1..Len(ev.per) : PartOk(ev.per[j], ev.exp, ev.names, ev.dec_exp, ev.depth)
 \* T: corpus / scenario manifests (names as compiled or as built): full equality whenever the
 \* source compiled at all
 CorpusPartOk(p) == p.src = "ok" => /\ p.dec = "ok" /\ p.comp = "ok" /\ p.eq_ins /\ p.eq_blobs /\ p.eq_children /\ p.eq_pre /\ p.fix
